@@ -153,7 +153,10 @@ pub fn corpus() -> Vec<(String, String)> {
 /// Confirmed front-end crashes whose fixes have all landed (DESIGN §7 fix rows): (id, probe text).  Every
 /// check runs them first, in a child process, as hard regression inputs: a crash is a failing input of the
 /// property, reported with the probe's source.  Nothing is gated.
-pub const GATES: [(&str, &str); 23] = [
+pub const GATES: [(&str, &str); 26] = [
+    ("D115", "type Pt = { x: int }\ninterface Show2 {\n    fn show2(selfself ) -> string\n}\nimplement Show2 for Pt {\n    #inline\n    fn show2(self) -> string { \"pt\" }\n}\nprintln(Pt(1).show2())\n"),
+    ("D115b", "type Pt = { x: int }\ninterface Show2 {\n    fn show2() -> string\n}\nimplement Show2 for Pt {\n    #inline\n    fn show2() -> string { \"pt\" }\n}\nprintln(Show2.show2())\n"),
+    ("D115c", "type Pt = { x: int }\ninterface Show2 {\n    fn show2(a, self) -> string\n}\nimplement Show2 for Pt {\n    #inline\n    fn show2(a, self) -> string { \"pt\" }\n}\nprintln(Show2.show2(1, Pt(1)))\n"),
     ("D114", "type Color = Red | Green\nColor.Red = Color.Green\n"),
     ("D110", "interface Foo {\n  fn a(self: Self) -> int\n  fn b(self: Self) -> int\n}\nimplement Foo for array<Bogus> {\n  fn a(self) -> int { 1 }\n}\n"),
     ("D111", "fn foo(a: int, b: int) -> int { a + b }\nlet x = foo(1, 2"),
